@@ -1,0 +1,9 @@
+//go:build !verif
+
+package timex
+
+import "time"
+
+const verifEnabled = false
+
+func verifNow() (time.Duration, bool) { return 0, false }
